@@ -45,7 +45,7 @@ def gen_cases(seed, tier):
     cases = []
 
     def add(fam, dom, **kw):
-        if fam in ("prim", "comp") and len(cases) % 6 == 1 and "product" not in geo.spec_ops(dom["spec"]) \
+        if fam in ("prim", "comp") and len(cases) % 6 == 1 and "product" not in geo.spec_ops(dom["spec"]) and "equiv" not in kw \
                 and "ratio" not in dom["info"].get("relations", []):
             S = float(sampling.SCALES[(len(cases) // 6) % len(sampling.SCALES)])    # the same shape at another length scale
             dom = dict(dom, spec=geo.scale_spec(dom["spec"], S), info=dict(dom["info"], scale=S))
@@ -145,6 +145,20 @@ def gen_cases(seed, tier):
                    "info": {"kind": "product", "dim": 2 if a["prim"] == "circle" else 1, "dep": False, "relations": [], "desc": geo.ref(spec).desc()}}
         dom["info"]["desc"] += "~two_var_factor"
         add("comp", dom, target="interior", mode="small" if i % 4 == 3 else "big", nsmall=10)
+    for i in range(4 if quick else 60):
+        # unions / cuts of rectangles with collinear edges: boundary sampling BY DENSITY is uniform on the true boundary
+        # (pieces lying on both operand boundaries must not be counted twice)
+        for _try in range(400):
+            dom = gen_geo.gen_domain(rng, max_depth=1, k=0, dep=False, allow=("bool",), dim=2)
+            if dom["info"]["relations"][-1:] == ["union:aligned"]:
+                break
+        # the union of the two rectangles IS a rectangle: its boundary law is judged against that rectangle exactly (the
+        # twin cannot classify points on two coincident leaf boundaries)
+        ra, rb = dom["spec"]["a"], dom["spec"]["b"]
+        xs = [ra["origin"][0], ra["c1"][0], rb["origin"][0], rb["c1"][0]]
+        y0_, y1_ = ra["origin"][1], ra["c2"][1]
+        add("comp", dom, target="boundary", mode="dens" if i % 2 == 0 else "big", nsmall=1,
+            equiv={"prim": "parallelogram", "var": "x", "origin": [min(xs), y0_], "c1": [max(xs), y0_], "c2": [min(xs), y1_]})
     for i in range(6 if quick else 60):
         # disjoint union whose mixing ratio |A| / (|A| + |B|) differs strongly between the parameter rows
         c = rng.uniform(-2, 2, 2)
@@ -503,8 +517,8 @@ def _uniform_test(case, D, node, Pp, env, k, N, seed, rng):
         env_row = {pn: v[i:i + 1] for pn, v in env.items()}
         if len(X) < 1500:
             continue
-        prim = "prim" in case["spec"]
-        uc = unit_coords(node, target, X, env_row) if prim else None
+        prim = "prim" in case["spec"] or bool(case.get("equiv"))
+        uc = unit_coords(geo.ref(case["equiv"]) if case.get("equiv") else node, target, X, env_row) if prim else None
         if uc is not None:
             cnt, pr = gof_cells(*uc)
             stat, dof, p = stats.chi2_gof(cnt, pr)
@@ -539,7 +553,12 @@ def run_uniform(case, res):
     mech = {"fam": case["fam"], "root": info["kind"], "target": case["target"], "mode": case["mode"],
             "nsmall": case.get("nsmall") if case["mode"] == "small" else None, "dep": bool(info["dep"]),
             "dep_product": bool(isinstance(node, geo.Product) and node.dependent()), "scale": info.get("scale", 1.0),
-            "abut": any("abut" in r or "aligned" in r for r in info.get("relations", [])), **traits}
+            "abut": any("abut" in r for r in info.get("relations", [])),
+            "aligned": any("aligned" in r for r in info.get("relations", [])), **traits}
+    if mech["aligned"] and case["target"] == "boundary" and not case.get("equiv"):
+        # pieces lying on two coincident leaf boundaries cannot be classified by the twin: no reference law, not judged
+        res["counters"]["collinear_boundaries_without_exact_reference"] = res["counters"].get("collinear_boundaries_without_exact_reference", 0) + 1
+        return
     try:
         first = _uniform_test(case, D, node, Pp, env, k, case["N"], case["seed"], rng)
     except Exception as e:
